@@ -50,7 +50,10 @@ REQUIRED_TAGS = ['op=reverse', 'op=swap', 'op=reparam', 'pardim=1', 'pardim=2', 
 
 CLASS_REVERSE_PERIODIC = 'reverse-periodic-flip-only'
 CLASS_SWAP_CURVE = 'swap-curve-returns-none'
-_CLASSES = [CLASS_REVERSE_PERIODIC, CLASS_SWAP_CURVE]
+CLASS_TINY = 'reparam-tiny-interval-absolute-knot-tolerance'
+_CLASSES = [CLASS_REVERSE_PERIODIC, CLASS_SWAP_CURVE, CLASS_TINY]
+INCLUDE_TINY = True      # target intervals narrower than ~1e-8: evaluation snaps to knots with the ABSOLUTE tolerance 1e-10
+TINY_WIDTH = 1e-7
 
 # ---------------------------------------------------------------------------------------------
 # the spelling convention of the library documentation (NOT derived from check_direction)
@@ -237,6 +240,14 @@ def generate(rng, tier):
                 args = [list(a) for a in args]
                 args[bad] = [3.0, 1.0]
                 specs.append({'family': 'partial-mutation', 'obj': o, 'ops': [{'op': 'reparam', 'args': args}, _rand_op(rng, pardim, 0.0)]})
+    if INCLUDE_TINY:
+        for i in range(3 if tier == 'quick' else 30):
+            pardim = 1 + i % 3
+            o = _rand_obj(rng, pardim, periodic_prob=0.0)
+            w = 2.0 ** -rng.randint(30, 40)
+            s0 = rng.choice([0.0, 0.0, w * 16])
+            specs.append({'family': 'tiny-interval', 'obj': o,
+                          'ops': [{'op': 'reparam', 'args': [[s0, s0 + w]], 'direction': rng.randrange(pardim)}]})
     for _ in range(4 if tier == 'quick' else 40):
         o = _rand_obj(rng, 1, periodic_prob=0.0)
         specs.append({'family': 'curve-swap', 'obj': o, 'ops': [{'op': 'swap', 'dirs': rng.choice([[], [0, 1], ['u', 'v'], ['x', 9]])}]})
@@ -395,6 +406,8 @@ def _close(a, b, tol=1e-9):
         return False, float('inf')
     if a.size == 0:
         return True, 0.0
+    if not (np.all(np.isfinite(a)) and np.all(np.isfinite(b))):
+        return False, float('nan')
     scale = max(1.0, float(np.max(np.abs(b))))
     err = float(np.max(np.abs(a - b)))
     return err <= tol * scale, err
@@ -440,6 +453,15 @@ def _dir_pairs(old_b, new_b, fwd, reverse):
 
 
 def _check_relation(old, new, maps, tag, what):
+    """Never raises: an exception of the real code while evaluating is itself a failure."""
+    try:
+        with np.errstate(all='ignore'):
+            return _check_relation_raw(old, new, maps, tag, what)
+    except Exception as e:  # noqa: BLE001
+        return ['%s%s: evaluating old/new object at the mapped parameters raised %s: %s' % (tag, what, exc_kind(e), str(e)[:80])]
+
+
+def _check_relation_raw(old, new, maps, tag, what):
     """maps: {new direction: (old direction, fwd, reverse)} for the directions that change; the others are
     identical.  Only one direction may be `reverse`d or have jumps checked at a time (others sparse)."""
     fails = []
@@ -625,7 +647,8 @@ def oracle(sp, s):
                 if d not in sem['targets']:
                     if not np.array_equal(np.asarray(obj.bases[d].knots), np.asarray(old.bases[d].knots)):
                         step_fail.append('%s: direction %d was not named but its knots changed' % (where, d))
-            step_fail += _check_relation(old, obj, maps, '', where)
+            tiny = any(float(o_.end(d)) - float(o_.start(d)) < TINY_WIDTH for o_ in (old, obj) for d in range(pd))
+            step_fail += _check_relation(old, obj, maps, '[%s] ' % CLASS_TINY if tiny else '', where)
             for d, (ns, ne) in sem['targets'].items():
                 sc = max(abs(ns), abs(ne))
                 xs, xe = _ulp_excess(obj.start(d), ns, sc), _ulp_excess(obj.end(d), ne, sc)
@@ -715,7 +738,9 @@ def _interval_tags(a):
         out.append('interval=negative')
     if e - s >= 2.0 ** 20:
         out.append('interval=huge')
-    if e - s <= 2.0 ** -4:
+    if e - s < TINY_WIDTH:
+        out.append('interval=tiny')
+    elif e - s <= 2.0 ** -4:
         out.append('interval=small')
     if max(abs(s), abs(e)) / (e - s) >= 2.0 ** 6:
         out.append('interval=shifted')
